@@ -103,6 +103,13 @@ def runC14 (line : String) : String :=
     match nat? w, nat? h, parseColor color, parseDith d, parseQuality q with
     | some w, some h, some c, some d, some _ => padString name w h c d
     | _, _, _, _, _ => "bad-case"
+  | ["mip", name, w, h, color, _filter, straight, _seed] =>
+    -- a whole file with generated mipmaps: the model predicts success for every encodable format without a size
+    -- multiple (the case generator uses only those); the bytes of the two runs are compared by the oracle
+    match supportOf name, nat? w, nat? h, parseColor color with
+    | some (some _), some w, some h, some _ =>
+      if w == 0 ∨ h == 0 ∨ w * h > 1048576 ∨ !(straight == "0" ∨ straight == "1") then "bad-case" else "mip ok"
+    | _, _, _, _ => "bad-case"
   | _ => "bad-case"
 
 end Dds.Drv.C14
